@@ -23,6 +23,7 @@ inductive Obj where
 structure Session where
   shapes : List Shape := []
   slots : Std.HashMap Nat Obj := {}
+  chain : Std.HashMap String (List (Val F)) := {}   -- running target of `updchain`, per shape
 
 def fb (s : String) : F := Float32.ofBits (UInt32.ofNat s.toNat!)
 def bits (x : F) : String := toString x.toBits.toNat
@@ -218,10 +219,22 @@ def runLine (st : Session) (line : String) : Session × String := Id.run do
     match st.slots.get? w[1]!.toNat! with
     | some (.tl sh t) =>
       let vs := sh.parseVals (w.toList.drop 3)
-      return (st, showExc ((t.update vs (fb w[2]!)).map showVals))
+      return ({ st with chain := st.chain.insert sh.name vs }, showExc ((t.update vs (fb w[2]!)).map showVals))
     | some (.mg sh m) =>
       let vs := sh.parseVals (w.toList.drop 3)
-      return (st, showExc ((m.update vs (fb w[2]!)).map showVals))
+      return ({ st with chain := st.chain.insert sh.name vs }, showExc ((m.update vs (fb w[2]!)).map showVals))
+    | _ => return (st, "bad-slot")
+  | "updchain" =>
+    let go (sh : Shape) (r : List (Val F) → Except Panic (List (Val F))) : Session × String :=
+      match st.chain.get? sh.name with
+      | none => (st, "no-chain")
+      | some vs =>
+        match r vs with
+        | .ok vs' => ({ st with chain := st.chain.insert sh.name vs' }, showVals vs')
+        | .error p => ({ st with chain := st.chain.erase sh.name }, "panic:" ++ p.tag)
+    match st.slots.get? w[1]!.toNat! with
+    | some (.tl sh t) => return go sh (fun vs => t.update vs (fb w[2]!))
+    | some (.mg sh m) => return go sh (fun vs => m.update vs (fb w[2]!))
     | _ => return (st, "bad-slot")
   | "merge" =>
     let slot := w[1]!.toNat!
